@@ -14,7 +14,14 @@ HasSeats    == (RankRules \ {"IRV", "TopTwo", "DominatingSets", "Alaska"}) \cup 
 \* ---- data the rule needs (TypeError)
 LacksRanking(q)  == q.rule \in RankRules /\ q.noranking
 HasTiedPos(q)    == q.rule \in STVRules \cup {"Alaska"} /\ \E r \in DOMAIN q.prof : ~Untied(r)
-NonIntWeight(q)  == q.rule = "PluralityVeto" /\ ~(\A r \in DOMAIN q.prof : RIsInt(q.prof[r]))
+(* the random transfer refuses a pile with a non-integer weight when it is applied: a count in which every ballot is led by the same   *)
+(* candidate, for one seat and at least two votes in all (so that the leader meets either quota at once), applies it to the whole     *)
+(* profile in its first round: the refusal is certain there (other profiles may never reach the transfer)                              *)
+OnePile(q)       == /\ q.prof # <<>> /\ q.m = 1 /\ ~RLt(Total(q.prof), R(2))
+                    /\ \E c \in UNION {r[1] : r \in DOMAIN q.prof} : \A r \in DOMAIN q.prof : r[1] = {c}
+NonIntWeight(q)  == /\ ~(\A r \in DOMAIN q.prof : RIsInt(q.prof[r]))
+                    /\ \/ q.rule = "PluralityVeto"
+                       \/ (q.rule = "STV" /\ q.xfer = "random" /\ OnePile(q))
 BadRatingParams(q) == q.rule \in RatingRules /\
                       LET c == q.rcfg IN
                       \/ (c.rule \in {"GeneralRating", "Rating"} /\ ~RLt(R(0), c.L))
